@@ -1,6 +1,7 @@
 package scen
 
 import (
+	"bufio"
 	"bytes"
 	"encoding/binary"
 	"errors"
@@ -188,6 +189,68 @@ func (s *linkSource) Next() ([]byte, error) {
 		return append([]byte(nil), chunk...), err
 	}
 	return append([]byte(nil), chunk...), nil
+}
+
+// flakyReader hands out a stream in pieces and fails ONCE, with a deadline error, after failAt octets; the stream
+// continues afterwards (a read deadline that expired and was re-armed).
+type flakyReader struct {
+	data   []byte
+	pos    int
+	failAt int
+	failed bool
+	piece  int
+}
+
+func (f *flakyReader) Read(p []byte) (int, error) {
+	if !f.failed && f.pos >= f.failAt {
+		f.failed = true
+		return 0, simnet.ErrDeadline
+	}
+	if f.pos >= len(f.data) {
+		return 0, io.EOF
+	}
+	n := min(len(p), f.piece, len(f.data)-f.pos)
+	if !f.failed && f.pos+n > f.failAt {
+		n = f.failAt - f.pos
+	}
+	copy(p, f.data[f.pos:f.pos+n])
+	f.pos += n
+	return n, nil
+}
+
+// bufioBlocked: the blocking extractor over the reader its interface was copied from, a *bufio.Reader (whose Size()
+// is its capacity), on a connection with one transient read error somewhere in the stream. Every frame it returns
+// without an error must be a frame that was sent, in order; after the error nothing is demanded.
+func bufioBlocked(r *core.Run, cd codec.Codec, site string, frames [][]byte) {
+	var stream []byte
+	for _, f := range frames {
+		if len(f) > 4000 {
+			return // stay below the buffer's capacity: that is where a "body already buffered" shortcut would live
+		}
+		stream = append(stream, f...)
+	}
+	if len(stream) < 8 {
+		return
+	}
+	idx := int(r.Cfg.Index)
+	fr := &flakyReader{data: stream, failAt: 1 + (idx*7919)%(len(stream)-1), piece: 1 + (idx*31)%97}
+	br := bufio.NewReaderSize(fr, 4096)
+	r.Probe("blocking_extractor_over_bufio")
+	for i, want := range frames {
+		var got []byte
+		var err error
+		if p := r.Call(site, func() { got, err = cd.DecodeBlocked(br) }); p != nil {
+			r.Fail("C04", "panic", site, p.Kind, "DecodeBlocked over a bufio.Reader panicked: %s", p.Value)
+			return
+		}
+		if err != nil {
+			return
+		}
+		if !bytes.Equal(got, want) {
+			r.Fail("C04", "frame-mismatch", site, "bufio-transient-error", "over a bufio.Reader with one transient read error after %d octets, frame %d came back as %d octets %s… (sent %d octets %s…) and no error", fr.failAt, i, len(got), hexN(got, 12), len(want), hexN(want, 12))
+			return
+		}
+	}
 }
 
 // neighbourSource lets a second connection decode one frame every time the first one blocks.
@@ -543,8 +606,24 @@ func runFraming(r *core.Run) {
 				var frame []byte
 				var derr error
 				conn.PeekShort = false
+				overAsked, overHad := 0, 0
+				conn.OnOverPeek = func(n, have int) {
+					// the probe for the 4-octet prefix is how the extractor learns that not even the prefix is there (a short
+					// answer IS its "incomplete" signal); what the anchored mechanism guards with Size() is the peek of the frame
+					if n > 4 {
+						overAsked, overHad = n, have
+					}
+				}
 				if p := r.Call(site, func() { frame, derr = cd.Decode(conn) }); p != nil {
 					r.Fail("C04", "panic", site, p.Kind, "Decode panicked: %s at %s", p.Value, p.Frame)
+					return
+				}
+				conn.OnOverPeek = nil
+				if overAsked > 0 {
+					// "tries to read a complete packet without blocking": the length announced by the (untrusted) prefix is
+					// compared with Size() before the frame is peeked; a Peek for more than Size() fetches from the connection
+					// on the readers this interface was written for, and an announced length of gigabytes never arrives
+					r.Fail("C04", "would-block", site, "peek-beyond-size", "Decode asked Peek for %d octets while Size() was %d: on a reader that fetches what is missing from the connection the non-blocking extractor waits for the peer", overAsked, overHad)
 					return
 				}
 				after := conn.Size()
@@ -683,6 +762,9 @@ func runFraming(r *core.Run) {
 				r.Fail("C04", "frame-mismatch", site, "next-connection", "after a stream that ended with %s the same codec value returned %s (%v) for the next connection's frame %s", errName(plan.failErr), hexN(got, 16), err, hexN(f, 16))
 			}
 			r.Probe("codec_value_serves_next_connection")
+		}
+		if !exhaustive && len(r.Findings) == 0 && r.Cfg.Index%4 == 1 {
+			bufioBlocked(r, cd, site, plan.frames)
 		}
 		for i, f := range kept {
 			if i < len(plan.frames) && !bytes.Equal(f, plan.frames[i]) {
